@@ -6,6 +6,7 @@ import (
 	"go/token"
 	"go/types"
 	"regexp"
+	"sort"
 	"strings"
 
 	"golang.org/x/tools/go/packages"
@@ -1378,14 +1379,39 @@ func ruleLaneIntegrity(c *Ctx, rule string) {
 				if !ok || len(elems) != 1 {
 					return false, "append of " + describe(x.Common().Args[1]) + " (not one statement)"
 				}
-				al, ok := resolve(elems[0]).(*ssa.Alloc)
-				if !ok {
-					return false, "appended element is " + describe(elems[0])
+				isStmtAlloc := func(v ssa.Value) (bool, string) {
+					al, ok := resolve(v).(*ssa.Alloc)
+					if !ok {
+						return false, "appended element is " + describe(v)
+					}
+					if n, _ := isAstNodeType(al.Type()); n != "InjectorFieldAccessStmt" && n != "InjectorProviderCallStmt" {
+						return false, "appended element is a " + n
+					}
+					return true, ""
 				}
-				if n, _ := isAstNodeType(al.Type()); n != "InjectorFieldAccessStmt" && n != "InjectorProviderCallStmt" {
-					return false, "appended element is a " + n
+				// the element's statement may be built by a private helper of the pool walk (a method on the node): it returns
+				// one of the two statement kinds, or nil for a node without a provider
+				if hc, isCall := resolve(elems[0]).(*ssa.Call); isCall {
+					if h := hc.Common().StaticCallee(); h != nil && h.Pkg == bps.Pkg && len(h.Blocks) > 0 {
+						for _, r := range returnsOf(h) {
+							if len(r.Results) != 1 {
+								return false, "helper " + h.Name() + " has an unexpected result"
+							}
+							if isNilConst(r.Results[0]) {
+								continue
+							}
+							if ok, why := isStmtAlloc(r.Results[0]); !ok {
+								return false, "helper " + h.Name() + ": " + why
+							}
+						}
+						c.seen(fnName(h))
+						return true, ""
+					}
 				}
-				return true, ""
+				if mi, isMI := resolve(elems[0]).(*ssa.MakeInterface); isMI {
+					return isStmtAlloc(mi.X)
+				}
+				return isStmtAlloc(elems[0])
 			}
 			return false, "the list is produced by " + describe(x)
 		}
@@ -1861,14 +1887,39 @@ func ruleTemplatesNotPatched(c *Ctx, rule string) {
 	L := c.L
 	n := 0
 	for _, fn := range pkgFuncs(L, genPkg) {
-		// table exception (one symbol family, reason): the parser rewrites the USER's copied expressions (package
-		// qualifiers are renamed to the allocated import names); those are not generated templates
+		// the parser rewrites the USER's copied expressions (package qualifiers are renamed to the allocated import names);
+		// those are not generated templates. They are recognised by where the patched node comes from: a node handed in
+		// (parameter, type assertion of a visited node), never the result of a function that builds nodes.
 		root := fn
 		for root.Parent() != nil {
 			root = root.Parent()
 		}
-		if recvIs(root, "Parser") {
-			continue
+		userSyntax := func(v ssa.Value) bool {
+			for i := 0; i < 8; i++ {
+				switch x := resolve(v).(type) {
+				case *ssa.Parameter, *ssa.FreeVar:
+					return true
+				case *ssa.TypeAssert:
+					v = x.X
+					continue
+				case *ssa.Extract:
+					if ta, ok := x.Tuple.(*ssa.TypeAssert); ok {
+						v = ta.X
+						continue
+					}
+					return recvIs(root, "Parser") // result of the parser's own rewriting helper
+				case *ssa.UnOp:
+					if fa, ok := x.X.(*ssa.FieldAddr); ok {
+						v = fa.X
+						continue
+					}
+					return false
+				case *ssa.Call:
+					return recvIs(root, "Parser") && x.Common().StaticCallee() != nil && recvIs(x.Common().StaticCallee(), "Parser")
+				}
+				return false
+			}
+			return false
 		}
 		for _, b := range fn.Blocks {
 			for _, in := range b.Instrs {
@@ -1881,6 +1932,9 @@ func ruleTemplatesNotPatched(c *Ctx, rule string) {
 					// element of a list that was loaded from a go/ast node's field
 					if ld, ok := a.X.(*ssa.UnOp); ok && ld.Op == token.MUL {
 						if fa, ok := ld.X.(*ssa.FieldAddr); ok && strings.HasPrefix(fieldKey(fa), "go/ast.") {
+							if userSyntax(fa.X) {
+								continue
+							}
 							n++
 							c.fail(rule, fnName(fn)+":patches-"+fieldKey(fa), L.pos(st.Pos()), "an element of "+fieldKey(fa)+" of an already built node is overwritten", describe(st.Val))
 						}
@@ -1896,6 +1950,9 @@ func ruleTemplatesNotPatched(c *Ctx, rule string) {
 					}
 					if al, ok := resolve(a.X).(*ssa.Alloc); ok && al.Parent() == fn {
 						continue // a local literal completed in place
+					}
+					if userSyntax(a.X) {
+						continue
 					}
 					c.fail(rule, fnName(fn)+":patches-"+k, L.pos(st.Pos()), "the slot "+k+" of a node built elsewhere ("+describe(a.X)+") is overwritten", describe(st.Val))
 				}
@@ -2671,4 +2728,555 @@ func condMentionsField(v ssa.Value, key string, depth int) bool {
 		}
 	}
 	return false
+}
+
+// ruleExprListsFresh: a list of emitted expressions (channel names to wait for / to close, arguments, left-hand sides) is
+// built from nothing by the function that returns it. A list that grows from a slice handed in by the caller shares its
+// backing array with whatever else the caller builds from that slice: two lists appended "from index 0" overwrite each other.
+func ruleExprListsFresh(c *Ctx, rule string) {
+	L := c.L
+	n := 0
+	for _, fn := range pkgFuncs(L, genPkg) {
+		for _, cs := range callsIn(fn) {
+			bi, ok := cs.common.Value.(*ssa.Builtin)
+			if !ok || bi.Name() != "append" || cs.value() == nil || cs.value().Type().String() != "[]go/ast.Expr" {
+				continue
+			}
+			n++
+			seen := map[ssa.Value]bool{}
+			var root func(v ssa.Value) ssa.Value
+			root = func(v ssa.Value) ssa.Value {
+				if seen[v] {
+					return nil
+				}
+				seen[v] = true
+				switch x := v.(type) {
+				case *ssa.Phi:
+					for _, e := range x.Edges {
+						if r := root(e); r != nil {
+							return r
+						}
+					}
+					return nil
+				case *ssa.Call:
+					if b2, ok := x.Common().Value.(*ssa.Builtin); ok && b2.Name() == "append" {
+						return root(x.Common().Args[0])
+					}
+				case *ssa.Parameter:
+					return x
+				}
+				return nil
+			}
+			if p := root(cs.common.Args[0]); p != nil {
+				c.fail(rule, fnName(fn)+":expression-list-grows-from-parameter:"+p.Name(), L.pos(cs.instr.Pos()), "a list of emitted expressions is appended to a slice the caller handed in ("+p.Name()+"): lists built from the same slice share one backing array and overwrite each other", describe(cs.common.Args[0]))
+			}
+		}
+	}
+	c.floor(rule, "appends to []ast.Expr lists in the generator", n, 4)
+}
+
+// ruleProviderCallOnlyInItsStatement: the expression that invokes a provider (`<provider>.Fn()(args)`) is emitted only as the
+// right-hand side of that provider's own call statement - the one place that is ordered after the statement's waits, inside
+// its lane, after the goroutines were spawned. (Evaluated elsewhere - e.g. as the initial value of a var declaration - a
+// provider would run before the goroutines exist.)
+func ruleProviderCallOnlyInItsStatement(c *Ctx, rule string) {
+	L := c.L
+	stmtFn := resolveRole(c, genPkg, "(*InjectorProviderCallStmt).Stmt")
+	if stmtFn == nil {
+		c.undecided(rule, "InjectorProviderCallStmt.Stmt", "function not found")
+		return
+	}
+	fam := map[*ssa.Function]bool{}
+	for _, f := range family(L, stmtFn) {
+		fam[f] = true
+	}
+	// functions that build the call template: a SelectorExpr whose X is a ProviderSpec.ASTExpr and whose Sel is "Fn"
+	builders := map[*ssa.Function]bool{}
+	for _, fn := range pkgFuncs(L, genPkg) {
+		for _, st := range storesToField([]*ssa.Function{fn}, "go/ast.SelectorExpr.X") {
+			s := newSym(L, map[string]bool{})
+			s.maxD = 0
+			if strings.Contains(strings.Join(s.eval(st.Val), "|"), "field:internal/kessoku.ProviderSpec.ASTExpr(") {
+				root := fn
+				for root.Parent() != nil {
+					root = root.Parent()
+				}
+				builders[root] = true
+			}
+		}
+	}
+	c.floor(rule, "functions that build the provider-call expression", len(builders), 1)
+	for b := range builders {
+		if fam[b] || b == stmtFn {
+			c.ok(rule, fnName(b)+" builds the provider call inside the call statement's own family", "")
+			continue
+		}
+		// called from elsewhere?
+		var outside []string
+		for _, fn := range pkgFuncs(L, genPkg) {
+			for _, cs := range callsIn(fn) {
+				if cs.common.StaticCallee() == b {
+					root := fn
+					for root.Parent() != nil {
+						root = root.Parent()
+					}
+					if !fam[root] && root != stmtFn {
+						outside = append(outside, fnName(fn)+" at "+L.pos(cs.instr.Pos()))
+					}
+				}
+			}
+		}
+		c.check(len(outside) == 0, rule, fnName(b)+":provider-call-built-outside-its-statement", L.pos(b.Pos()),
+			"the provider invocation is emitted only by the provider's call statement", strings.Join(outside, "; "))
+	}
+	// and the statement always emits it: every success return of Stmt follows the call element
+	var callElem ssa.Instruction
+	for _, e := range stmtElems(L, stmtFn) {
+		if strings.Contains(e.label, "lit:AssignStmt") || strings.Contains(e.label, "call:buildAssignmentStatement") {
+			callElem = e.at
+		}
+	}
+	if callElem == nil {
+		c.undecided(rule, "InjectorProviderCallStmt.Stmt:call-element", "cannot identify the call statement among the emitted elements")
+		return
+	}
+	for _, r := range returnsOf(stmtFn) {
+		c.check(instrDominates(callElem, r), rule, "InjectorProviderCallStmt.Stmt:always-emits-its-call", L.pos(r.Pos()),
+			"a call statement never returns without emitting its provider call", fmt.Sprintf("return in block %d", r.Block().Index))
+	}
+}
+
+// ruleEllipsisOnlyLast (C04.6): inside a rendered function type only the LAST parameter may be printed as ...T, and only
+// for variadic signatures.
+func ruleEllipsisOnlyLast(c *Ctx, rule string) {
+	L := c.L
+	n := 0
+	for _, fn := range pkgFuncs(L, genPkg) {
+		for _, b := range fn.Blocks {
+			for _, in := range b.Instrs {
+				al, ok := in.(*ssa.Alloc)
+				if !ok {
+					continue
+				}
+				if nm, _ := isAstNodeType(al.Type()); nm != "Ellipsis" {
+					continue
+				}
+				n++
+				variadic, last := false, false
+				var walk func(v ssa.Value, d int)
+				walk = func(v ssa.Value, d int) {
+					if d > 8 || v == nil {
+						return
+					}
+					switch x := v.(type) {
+					case *ssa.Call:
+						if calleeOf(x.Common()) == "(*go/types.Signature).Variadic" {
+							variadic = true
+						}
+					case *ssa.BinOp:
+						if x.Op == token.EQL {
+							for _, side := range []ssa.Value{x.X, x.Y} {
+								if sb, ok := side.(*ssa.BinOp); ok && sb.Op == token.SUB {
+									if k, ok := constInt(sb.Y); ok && k == 1 {
+										if lc, ok := sb.X.(*ssa.Call); ok && strings.HasSuffix(calleeOf(lc.Common()), ").Len") {
+											last = true
+										}
+									}
+								}
+							}
+						}
+						walk(x.X, d+1)
+						walk(x.Y, d+1)
+					case *ssa.UnOp:
+						walk(x.X, d+1)
+					case *ssa.Phi:
+						for _, e := range x.Edges {
+							walk(e, d+1)
+						}
+						for _, p := range x.Block().Preds {
+							if len(p.Instrs) > 0 {
+								if iff, ok := p.Instrs[len(p.Instrs)-1].(*ssa.If); ok {
+									walk(iff.Cond, d+1)
+								}
+							}
+							for dd := p.Idom(); dd != nil && d < 4; dd = dd.Idom() {
+								if len(dd.Instrs) > 0 {
+									if iff, ok := dd.Instrs[len(dd.Instrs)-1].(*ssa.If); ok && dd.Dominates(x.Block()) {
+										walk(iff.Cond, d+2)
+									}
+								}
+								break
+							}
+						}
+					case *ssa.Extract:
+						// the comma-ok of the slice type assertion
+					}
+				}
+				for _, iff := range controllingIfs(al) {
+					walk(iff.Cond, 0)
+				}
+				c.check(variadic && last, rule, fnName(fn)+":ellipsis-only-for-last-variadic-parameter", L.pos(al.Pos()),
+					"a parameter is printed as ...T only when the signature is variadic and it is the last parameter", fmt.Sprintf("variadic consulted=%v, last-index test=%v", variadic, last))
+			}
+		}
+	}
+	c.floor(rule, "Ellipsis nodes built by the type renderer", n, 1)
+}
+
+// ruleWhoMayCall: a function that decides scheduling facts is called only from where those facts are decided.
+func ruleWhoMayCall(c *Ctx, rule, callee, why string, allowedRoots ...string) {
+	L := c.L
+	target := resolveRole(c, genPkg, callee)
+	if target == nil {
+		c.undecided(rule, callee, "function not found")
+		return
+	}
+	allowed := map[*ssa.Function]bool{}
+	for _, a := range allowedRoots {
+		for _, f := range family(L, resolveRole(c, genPkg, a)) {
+			allowed[f] = true
+		}
+	}
+	n := 0
+	for _, fn := range pkgFuncs(L, genPkg) {
+		for _, cs := range callsIn(fn) {
+			if cs.common.StaticCallee() == nil || originOf(cs.common.StaticCallee()) != target {
+				continue
+			}
+			n++
+			c.check(allowed[fn] || fn == target, rule, fnName(fn)+":calls:"+shortFn(callee), L.pos(cs.instr.Pos()), why, "caller "+fnName(fn)+"; allowed: the families of "+strings.Join(allowedRoots, ", "))
+		}
+	}
+	c.floor(rule, "call sites of "+shortFn(callee), n, 1)
+}
+
+// ruleDoneAndErrSameContext (C07): the select arm that gives up on cancellation watches and reports ONE context: the receiver
+// of .Done() and the receiver of .Err() are the same identifier expression.
+func ruleDoneAndErrSameContext(c *Ctx, rule string) {
+	L := c.L
+	p := L.Pkgs[genPkg]
+	recv := map[string]map[string]string{} // function -> selector -> receiver expression
+	n := 0
+	for _, s := range collectTemplates(p) {
+		if s.kind != "SelectorExpr" {
+			continue
+		}
+		sel, ok := identConst(p, s.fn, s.fields["Sel"])
+		if !ok || (sel != "Done" && sel != "Err") {
+			continue
+		}
+		n++
+		x := "?"
+		if nm, isC := identConst(p, s.fn, s.fields["X"]); isC {
+			x = "const:" + nm
+		} else if a := identArg(p, s.fn, s.fields["X"]); a != nil {
+			x = "expr:" + exprString(a)
+		} else {
+			x = "expr:" + exprString(s.fields["X"])
+		}
+		if recv[s.fnName()] == nil {
+			recv[s.fnName()] = map[string]string{}
+		}
+		if prev, dup := recv[s.fnName()][sel]; dup && prev != x {
+			x = prev + " / " + x
+		}
+		recv[s.fnName()][sel] = x
+	}
+	for fn, m := range recv {
+		d, hasD := m["Done"]
+		e, hasE := m["Err"]
+		if hasD && hasE {
+			c.check(d == e, rule, "template:done-and-err-of-one-context", "-", "a cancellable wait watches and reports the same context (receiver of .Done() == receiver of .Err())", fmt.Sprintf("%s: Done on %s, Err on %s", fn, d, e))
+		}
+	}
+	c.floor(rule, "Done/Err selector templates", n, 2)
+}
+
+// ruleArgminOverCandidates: findOptimalPool's "smallest pool" fallback is an argmin over the candidate pools only: the
+// running minimum starts from a sentinel (no candidate yet), not from the size of pool 0, which need not be a candidate
+// (pool 0 is the caller's lane).
+func ruleArgminOverCandidates(c *Ctx, rule string) {
+	L := c.L
+	fn := genFn(c, rule, "(*Graph).findOptimalPool")
+	if fn == nil {
+		return
+	}
+	n := 0
+	for _, b := range fn.Blocks {
+		for _, in := range b.Instrs {
+			bo, ok := in.(*ssa.BinOp)
+			if !ok || bo.Op != token.LSS {
+				continue
+			}
+			lenOfPool := func(v ssa.Value) (*ssa.IndexAddr, bool) {
+				call, ok := v.(*ssa.Call)
+				if !ok {
+					return nil, false
+				}
+				if bi, isB := call.Common().Value.(*ssa.Builtin); !isB || bi.Name() != "len" {
+					return nil, false
+				}
+				ld, ok := call.Common().Args[0].(*ssa.UnOp)
+				if !ok {
+					return nil, false
+				}
+				ia, ok := ld.X.(*ssa.IndexAddr)
+				if !ok || !strings.HasSuffix(ia.X.Type().String(), "[][]*"+genPkg+".node") {
+					return nil, false
+				}
+				return ia, true
+			}
+			if _, isLen := lenOfPool(bo.X); !isLen {
+				continue
+			}
+			if _, isConst := bo.Y.(*ssa.Const); isConst {
+				continue // comparisons with constants are not the running minimum
+			}
+			n++
+			ok2, why := false, "the running minimum is "+describe(bo.Y)
+			if ph, isPhi := bo.Y.(*ssa.Phi); isPhi {
+				for _, e := range ph.Edges {
+					if k, isC := e.(*ssa.Const); isC && k.Value != nil {
+						ok2, why = true, "running minimum starts from the sentinel "+k.Value.String()
+					}
+				}
+			}
+			if ia, isLen := lenOfPool(bo.Y); isLen {
+				why = "each candidate is compared with pools[" + describe(ia.Index) + "], which starts as pool 0 - not necessarily a candidate"
+			}
+			c.check(ok2, rule, fnName(fn)+":smallest-candidate-pool", L.pos(bo.Pos()), "the smallest-pool fallback is an argmin over the candidate pools (running minimum initialised with a sentinel)", why)
+		}
+	}
+	c.floor(rule, "running-minimum comparisons in findOptimalPool", n, 1)
+}
+
+// ruleNoNewSwallowedRefusals (C09): errors created below parseInjectCall are logged and skipped by its caller (recorded
+// finding C09.1). Their number is therefore frozen: a refusal added there - however well meant - makes the generator exit 0
+// without the declaration's function instead of failing.
+func ruleNoNewSwallowedRefusals(c *Ctx, rule string, confirmed int) {
+	L := c.L
+	pic := resolveRole(c, genPkg, "(*Parser).parseInjectCall")
+	if pic == nil {
+		c.undecided(rule, "parseInjectCall", "function not found")
+		return
+	}
+	// is the error still dropped by the caller? (if the finding was repaired this rule is moot)
+	dropped := false
+	for _, fn := range pkgFuncs(L, genPkg) {
+		for _, cs := range callsIn(fn) {
+			if cs.common.StaticCallee() == pic && cs.value() != nil {
+				if ok, _ := errorBranchReturnsNonNil(cs.value()); !ok && !returnsCallDirectly(cs.value()) {
+					dropped = true
+				}
+			}
+		}
+	}
+	if !dropped {
+		c.ok(rule, "parseInjectCall's error is handed on by its caller: refusals below it are effective", "")
+		return
+	}
+	seen := map[*ssa.Function]bool{}
+	var sites []string
+	var visit func(fn *ssa.Function, d int)
+	visit = func(fn *ssa.Function, d int) {
+		if fn == nil || seen[fn] || d > 6 || len(fn.Blocks) == 0 {
+			return
+		}
+		seen[fn] = true
+		for _, w := range withClosures(fn) {
+			for _, cs := range callsIn(w) {
+				switch cs.callee {
+				case "fmt.Errorf", "errors.New":
+					// only newly created errors count, not wraps of an error that already exists (%w of a callee's error)
+					wraps := false
+					if cs.callee == "fmt.Errorf" && len(cs.common.Args) == 2 {
+						if elems, ok := variadicElems(cs.common.Args[1]); ok {
+							for _, e := range elems {
+								if isErrorType(resolve(e).Type()) {
+									wraps = true
+								}
+								if mi, ok := resolve(e).(*ssa.MakeInterface); ok && isErrorType(mi.X.Type()) {
+									wraps = true
+								}
+							}
+						}
+					}
+					if !wraps {
+						sites = append(sites, L.pos(cs.instr.Pos()))
+					}
+				}
+				if cal := cs.common.StaticCallee(); cal != nil && cal.Pkg != nil && cal.Pkg.Pkg.Path() == genPkg {
+					visit(originOf(cal), d+1)
+				}
+			}
+		}
+	}
+	visit(pic, 0)
+	sort.Strings(sites)
+	c.check(len(sites) <= confirmed, rule, "parseInjectCall:error-sources-below-a-swallowed-error", L.pos(pic.Pos()),
+		fmt.Sprintf("no new refusal is created below parseInjectCall, whose errors the caller logs and skips (confirmed sources: %d)", confirmed), fmt.Sprintf("%d error-creating sites: %s", len(sites), strings.Join(sites, " ")))
+}
+
+// ruleResolutionAfterRegistration (C09): a type is looked up in the supplier map to RESOLVE it (the requested type, a
+// requirement) only after every supplier has been registered - function results and expanded struct fields alike - and
+// after the registration-time refusals (duplicates, orphan Struct) had their chance.
+func ruleResolutionAfterRegistration(c *Ctx, rule string) {
+	L := c.L
+	ng := genFn(c, rule, "NewGraph")
+	if ng == nil {
+		return
+	}
+	isSupplier := func(v ssa.Value) bool {
+		u, ok := v.(*ssa.UnOp)
+		if !ok {
+			return strings.Contains(v.Type().String(), "map[string]*") && strings.Contains(v.Type().String(), "fnProvider")
+		}
+		return strings.Contains(u.Type().String(), "map[string]*") && strings.Contains(u.Type().String(), "fnProvider")
+	}
+	var inserts []*ssa.MapUpdate
+	var lookups []*ssa.Lookup
+	for _, fn := range family(L, ng) {
+		for _, b := range fn.Blocks {
+			for _, in := range b.Instrs {
+				switch x := in.(type) {
+				case *ssa.MapUpdate:
+					if isSupplier(x.Map) {
+						inserts = append(inserts, x)
+					}
+				case *ssa.Lookup:
+					if isSupplier(x.X) {
+						lookups = append(lookups, x)
+					}
+				}
+			}
+		}
+	}
+	n := 0
+	for _, lk := range lookups {
+		// a guard lookup: same key as an insert it guards
+		guard := false
+		for _, ins := range inserts {
+			if ins.Parent() == lk.Parent() && sameValueOrigin(ins.Key, lk.Index) {
+				guard = true
+			}
+		}
+		if guard {
+			continue
+		}
+		// a pure existence test (the looked-up value is not used): a validation, not a resolution
+		usesValue := false
+		if lk.Referrers() != nil {
+			for _, r := range *lk.Referrers() {
+				if ex, ok := r.(*ssa.Extract); ok && ex.Index == 0 && ex.Referrers() != nil && len(*ex.Referrers()) > 0 {
+					usesValue = true
+				}
+			}
+			if !lk.CommaOk {
+				usesValue = true
+			}
+		}
+		if !usesValue {
+			continue
+		}
+		n++
+		bad := ""
+		for _, ins := range inserts {
+			if ins.Parent() == lk.Parent() && reachableAfter(lk, ins) {
+				bad = "a supplier is still registered at " + L.pos(ins.Pos()) + " after this lookup"
+			}
+		}
+		c.check(bad == "", rule, fnName(lk.Parent())+":resolution-after-registration", L.pos(lk.Pos()),
+			"the supplier map is consulted to resolve a type only after all suppliers (expanded struct fields included) were registered", bad)
+	}
+	c.floor(rule, "resolution lookups of the supplier map", n, 2)
+}
+
+// ruleBindAppendsInterface (C10): in the Bind case every provided type that implements the bound interface gets the
+// interface added to its group - the only test on the way is types.Implements.
+func ruleBindAppendsInterface(c *Ctx, rule string) {
+	L := c.L
+	ppt := resolveRole(c, genPkg, "(*Parser).parseProviderType")
+	if ppt == nil {
+		c.undecided(rule, "parseProviderType", "function not found")
+		return
+	}
+	n := 0
+	for _, fn := range family(L, ppt) {
+		for _, cs := range callsIn(fn) {
+			if cs.callee != "go/types.Implements" || cs.value() == nil {
+				continue
+			}
+			n++
+			// everything that controls this test inside its loops must be a loop condition
+			var extra []string
+			for _, iff := range controllingIfs(cs.instr) {
+				if outermostLoopHeader(iff.Block()) == nil && !strings.Contains(iff.Block().Comment, "loop") {
+					continue // before the loops (case selection, argument checks)
+				}
+				s := newSym(L, map[string]bool{})
+				s.maxD = 0
+				t := strings.Join(s.eval(iff.Cond), "|")
+				if strings.HasPrefix(t, "bin<(") || strings.HasPrefix(t, "bin>(") || strings.Contains(t, "next#") || strings.HasPrefix(t, "extract#") {
+					continue
+				}
+				extra = append(extra, t)
+			}
+			c.check(len(extra) == 0, rule, fnName(fn)+":bind-tests-every-provided-type", L.pos(cs.instr.Pos()),
+				"every provided type is tested against the bound interface (no provided type is skipped before types.Implements)", strings.Join(extra, " ; "))
+		}
+	}
+	c.floor(rule, "types.Implements tests in parseProviderType", n, 1)
+}
+
+// ruleWireAliasThreaded (C13): the name under which a file imports google/wire is handed down to every nested parse: no
+// call of the wire-call parser receives a constant alias.
+func ruleWireAliasThreaded(c *Ctx, rule string) {
+	L := c.L
+	pce := resolveRole(c, migPkg, "(*Parser).parseCallExpr")
+	if pce == nil {
+		c.undecided(rule, "parseCallExpr", "function not found")
+		return
+	}
+	// the alias parameter: the string parameter compared with the selector's qualifier; identified by position of the
+	// string parameters (first string parameter after the *types.Info)
+	aliasIdx := -1
+	for i, p := range pce.Params {
+		if p.Type().String() == "string" {
+			aliasIdx = i
+			break
+		}
+	}
+	if aliasIdx < 0 {
+		c.undecided(rule, "parseCallExpr:alias", "no string parameter")
+		return
+	}
+	n := 0
+	for _, fn := range pkgFuncs(L, migPkg) {
+		for _, cs := range callsIn(fn) {
+			if cs.common.StaticCallee() != pce || aliasIdx >= len(cs.common.Args) {
+				continue
+			}
+			n++
+			a := resolve(cs.common.Args[aliasIdx])
+			_, isConst := a.(*ssa.Const)
+			c.check(!isConst, rule, fnName(fn)+":wire-alias-passed-on", L.pos(cs.instr.Pos()), "nested wire calls are recognised under the file's own import name for google/wire", "alias argument: "+describe(a))
+		}
+	}
+	c.floor(rule, "calls of parseCallExpr", n, 2)
+}
+
+// ruleProviderFuncResolvedByUses (C13): the function object of a provider reference comes from the type checker's
+// identifier tables (ObjectOf / Uses); qualified identifiers are not in Info.Selections.
+func ruleProviderFuncResolvedByUses(c *Ctx, rule string) {
+	L := c.L
+	n := 0
+	for _, st := range storesToField(pkgFuncs(L, migPkg), "internal/migrate.WireProviderFunc.Func") {
+		n++
+		s := newSym(L, map[string]bool{})
+		s.maxD = 0
+		t := strings.Join(s.eval(st.Val), "|")
+		ok := (strings.Contains(t, "Info).ObjectOf(") || strings.Contains(t, "Info.Uses(")) && !strings.Contains(t, "Info.Selections(")
+		c.check(ok, rule, fnName(st.Parent())+":provider-func-object", L.pos(st.Pos()), "a provider reference (NewFoo or pkg.NewFoo) is resolved through Info.ObjectOf/Uses", t)
+	}
+	c.floor(rule, "stores to WireProviderFunc.Func", n, 2)
 }
